@@ -78,12 +78,12 @@ func (e *csvEncoder) createChildRow(child *CandidateNode, headers []*CandidateNo
 func (e *csvEncoder) encodeObjects(csvWriter *csv.Writer, content []*CandidateNode) error {
 	headers, err := e.extractHeader(content[0])
 	if err != nil {
-		return nil
+		return err
 	}
 
 	err = e.encodeRow(csvWriter, headers)
 	if err != nil {
-		return nil
+		return err
 	}
 
 	for i, child := range content {
